@@ -2,12 +2,14 @@
 
   tl <call> <call> …          timeline of a workload: for every crash point (k, j) in execution order one entry
                               `label|acks|rows`, entries separated by `;`, first entry `init||`.
-       call tokens:  m<method>.<path>:<key>:<val>   insert through generated method/path
-                     en | ex | xx | cm              __enter__ | __exit__(no exc) | __exit__(exception) | commit()
+       call tokens:  m<method>.<path>[/<n>]:<key>:<val>   insert through generated method/path (first n primitives only)
+                     en | ex | xx | cm | kk         __enter__ | __exit__(no exc) | __exit__(exception) | commit() |
+                                                    process killed, next process opens the file
        label: X (row added) Xi (ignored duplicate) X! (IntegrityError) C (real commit) D (deferred commit)
               R (returned) en ex exC xx ;  rows / acks are printed as `=` when unchanged from the previous entry
-  open <cls> <option> <version> <n>   open() on a file whose option table / version row exist or not, killed after
-                              n statements of the schema script:  `ok <tables> <option> <version>` | `error`
+  open <cls> <option> <version> <n>   a file whose option table / version row exist or not; an open() is killed after
+                              n statements of the schema script; then a complete open():
+                              `ok <tables> <option> <version>` | `error`
 -/
 import Ipv8.Base.Proto
 import Ipv8.C19.Model
@@ -20,6 +22,7 @@ def parseCall (i : Nat) (tok : String) : Option Call :=
   | "ex" => some ⟨i, [.exit], 0, 0⟩
   | "xx" => some ⟨i, [.exitExc], 0, 0⟩
   | "cm" => some ⟨i, [.callCommit], 0, 0⟩
+  | "kk" => some ⟨i, [.kill], 0, 0⟩
   | _ =>
     match Proto.splitChar tok ':' with
     | [m, k, v] =>
@@ -28,12 +31,19 @@ def parseCall (i : Nat) (tok : String) : Option Call :=
         match Proto.splitChar (String.ofList rest) '.' with
         | [mi, pi] => do
           let mi ← mi.toNat?
-          let pi ← pi.toNat?
+          -- "<path>" or "<path>/<n>": only the first n primitives ran before the process was killed
+          let (pi, cut) ← (match Proto.splitChar pi '/' with
+            | [p] => p.toNat?.map (fun p => (p, none))
+            | [p, n] => do
+              let p ← p.toNat?
+              let n ← n.toNat?
+              pure (p, some n)
+            | _ => none)
           let k ← k.toNat?
           let v ← v.toNat?
           let meth ← Gen.insertMethods[mi]?
           let ops ← meth.paths[pi]?
-          pure ⟨i, ops, k, v⟩
+          pure ⟨i, (match cut with | some n => ops.take n | none => ops), k, v⟩
         | _ => none
       | _ => none
     | _ => none
@@ -63,6 +73,7 @@ def label (C : CommitMethod) (c : Call) (p : Prim) (db : Db) : String :=
   | .enter => "en"
   | .exit => if db.defer > 1 then "exC" else "ex"
   | .exitExc => "xx"
+  | .kill => "kk"
 
 /-- entries for call `k`: walk its primitives with `stepPrim` for the labels, take the states from `crashAt` -/
 def callEntries (C : CommitMethod) (W : List Call) (k : Nat) (c : Call) : List (String × Db) :=
@@ -114,9 +125,11 @@ def step (_ : Unit) (toks : List String) : Unit × String :=
         | "1" => some Gen.schemaAttestationsDB
         | _ => none)
       let have_ : List Nat := if o then (if cls == "0" then Gen.tablesIdentityDatabase else Gen.tablesAttestationsDB) else []
-      match openDb Gen.versionHandlers script n { tables := have_, option := o, version := v } with
-      | some s => pure s!"ok {Proto.showNatList s.tables} {if s.option then 1 else 0} {if s.version then 1 else 0}"
-      | none => pure "error"
+      let s1 := openKilled Gen.versionHandlers script n { tables := have_, option := o, version := v }
+      if openOk Gen.versionHandlers script s1 then
+        let s2 := openEnd script s1
+        pure s!"ok {Proto.showNatList s2.tables} {if s2.option then 1 else 0} {if s2.version then 1 else 0}"
+      else pure "error"
     | ["methods"] => pure (toString Gen.insertMethods.length)
     | _ => none
   ((), r.getD "bad-op")
